@@ -31,6 +31,8 @@ def jobs(tier, seed):
     for si in (4, 5, 7):
         J.append({"family": "mpr:box_tetraoffmesh", "args": {"a": GC.POLY_CORPUS[0], "b": GC.POLY_CORPUS[13], "sweep": GC.SWEEPS[si],
                                                              "a_pose": 0, "swap": si == 5, "algo": "mpr"}})
+    # sweeps through placements that reach rarely executed branches of the Nesterov simplex projections
+    J += GC.branch_scene_jobs(tier, {"prim": "nesterov_prim", "generic": "nesterov"})
     if tier == "quick":
         # the primitives flavour only accepts boxes among the polytopes: give it every sweep on the box pairs
         P = GC.POLY_CORPUS
